@@ -10,7 +10,7 @@ loader.exec_module(check)
 from registry import PROPS
 log = []
 digest = check.tree_digest()
-pkgs = sorted({(s["pkg"], s.get("race", False)) for p in PROPS.values() for s in p.get("streams", []) if not s.get("race", False)})
+pkgs = sorted({(s["pkg"], s.get("race", False)) for p in PROPS.values() for s in p.get("streams", [])})
 for pkg, race in pkgs:
     b = check.build_harness(pkg, digest, log, race=race)
     print("harness", pkg, "ok" if b else "FAILED")
